@@ -35,8 +35,8 @@ LEVEL = "model_checking"
 RULE = (
     "U-TEMP problems over the slots of the compiler's kind (d1.dur d1.cond1 d1.cond2 d1.eff2 d2.dur "
     "d2.cond1 d2.eff3 i1.pre i1.eff2 goal, plus the extra duration forms d1.durx / d2.durx of this "
-    "module); deviation levels 0,1 complete over full pools, level 2 all pairs over core pools "
-    "[quick] / all pairs over full pools [thorough], level 3 core triples = a duration form of one "
+    "module); deviation levels 0,1 complete over full pools, level 2 all pairs over core pools plus all (condition slot, effect slot) pairs of one durative "
+    "action over full pools [quick] / all pairs over full pools [thorough], level 3 core triples = a duration form of one "
     "durative action with two more slots of that action [thorough]; per in-kind problem ALL valid plans of the compiled problem with <= k steps "
     "(exhaustive DFS with the sequential reference); states = plan prefixes reached by the search, "
     "transitions = applicable steps explored, traces = valid compiled plans whose back-converted "
@@ -125,7 +125,14 @@ def _ids(tier):
                 owners = set(s.split(".")[0] for s in combo)
                 if len(owners) != 1 or not any(s.endswith(".dur") or s.endswith(".durx") for s in combo):
                     continue
-            idxs = [[i for i, (_x, core) in enumerate(pool(s)) if core or not core_only] for s in combo]
+            full = not core_only
+            if level == 2 and core_only:
+                # quick: a condition slot and an effect slot of ONE durative action interact through
+                # the start-effect substitution, so these pairs run over the full pools
+                owners = set(s.split(".")[0] for s in combo)
+                kinds = sorted(s.split(".")[1][:4] for s in combo)
+                full = len(owners) == 1 and owners <= {"d1", "d2"} and kinds in (["cond", "eff2"], ["cond", "eff3"])
+            idxs = [[i for i, (_x, core) in enumerate(pool(s)) if core or full] for s in combo]
             for pick in product(*idxs):
                 out.append((level, tuple(zip(combo, pick))))
     return out
